@@ -150,12 +150,50 @@ def build_engine(name, san=True):
 
 
 # ---------------------------------------------------------------- running
+P14 = int(
+    'FFFFFFFFFFFFFFFFC90FDAA22168C234C4C6628B80DC1CD129024E088A67CC74020BBEA63B139B22514A08798E3404DD'
+    'EF9519B3CD3A431B302B0A6DF25F14374FE1356D6D51C245E485B576625E7EC6F44C42E9A637ED6B0BFF5CB6F406B7ED'
+    'EE386BFB5A899FA5AE9F24117C4B1FE649286651ECE45B3DC2007CB8A163BF0598DA48361C55D39A69163FA8FD24CF5F'
+    '83655D23DCA3AD961C62F356208552BB9ED529077096966D670C354E4ABC9804F1746C08CA18217C32905E462E36CE3B'
+    'E39E772C180E86039B2783A2EC07A28FB5C55DF06F4C52C9DE2BCBF6955817183995497CEA956AE515D2261898FA0510'
+    '15728E5A8AACAA68FFFFFFFFFFFFFFFF', 16)   # RFC 3526 group 14, typed in independently of crypto_dh_group14.c
+
+
+def post_check(exe, prop, o):
+    """Oracles evaluated outside the process: C10 exact values with Python big integers."""
+    if o is None or o.get('kind') != 0 or prop != 'C10' or not o.get('out'):
+        return o
+    for rec in o['out'].split(';'):
+        f = rec.split()
+        if len(f) != 5:
+            continue
+        kind, priv, peer, out, rc = f[0], int(f[1], 16), int(f[2], 16), f[3], int(f[4])
+        bad = None
+        if kind in ('P', 'K'):
+            if out == '-':
+                continue        # a failed call: the engine judges whether failing was legitimate
+            want = pow(peer, (1 << 258) + priv, P14)
+            if int(out, 16) != want or len(out) != 512:
+                bad = ('C10.value', 'value', '%s: result differs from %s^(2^258+x) mod p for x=%064x' % (
+                    'public value' if kind == 'P' else 'shared key', '2' if kind == 'P' else 'y', priv))
+        elif kind == 'S':
+            if (rc == 0) != (peer < P14):
+                bad = ('C10.sanity', 'sanity-py', 'sanity check %s a value that is %s p' % (
+                    'accepted' if rc == 0 else 'rejected', 'below' if peer < P14 else 'not below'))
+        if bad:
+            o = dict(o, kind=1, oracle=bad[0], sig=bad[1], msg=bad[2], hash='')
+            return o
+    return o
+
+
 def run_json(exe, args, timeout=120):
     r = subprocess.run([exe] + args, capture_output=True, text=True, timeout=timeout)
     out = None
     for line in r.stdout.splitlines():
         if line.startswith('{'):
             out = json.loads(line)
+    prop = args[args.index('--prop') + 1] if '--prop' in args else ''
+    out = post_check(exe, prop, out)
     return out, r.stderr, r.returncode
 
 
@@ -179,6 +217,7 @@ def run_batch(exe, prop, first, count, tag):
                              stdout=subprocess.DEVNULL, stderr=subprocess.PIPE, text=True)
         procs.append((p, prefix))
     viol, summ = [], None
+    summ_extra = {}
     allh = array.array('Q')
     for p, prefix in procs:
         _, err = p.communicate()
@@ -202,16 +241,26 @@ def run_batch(exe, prop, first, count, tag):
                                 summ[k] += v
                 else:
                     viol.append(o)
+        if prop == 'C10' and os.path.exists(prefix + '.out'):
+            with open(prefix + '.out') as f:
+                for line in f:
+                    sd, _, outs = line.rstrip('\n').partition('\t')
+                    o = post_check(exe, prop, {'kind': 0, 'out': outs, 'seed': int(sd), 'af': [-1, -1, 0], 't': 'v'})
+                    if o['kind'] != 0:
+                        viol.append(o)
+                        summ_extra['py_violations'] = summ_extra.get('py_violations', 0) + 1
+                    summ_extra['py_checked'] = summ_extra.get('py_checked', 0) + 1
         with open(prefix + '.hash', 'rb') as f:
             data = f.read()
             a = array.array('Q')
             a.frombytes(data[:len(data) // 8 * 8])
             allh.extend(a)
-        for suf in ('.jsonl', '.hash', '.err'):
+        for suf in ('.jsonl', '.hash', '.err', '.out'):
             try:
                 os.unlink(prefix + suf)
             except OSError:
                 pass
+    summ.update(summ_extra)
     return viol, summ, allh
 
 
@@ -425,6 +474,8 @@ def handle_violation(exe, engine, prop, v, tree):
         o, _, _ = run_json(exe, ['--prop', prop, '--run', base])
         res.append((o['kind'], o['oracle'], o['sig'], o['hash'] if o['kind'] == 1 else ''))
     want = (v['kind'], v['oracle'], v['sig'], v['hash'] if v['kind'] == 1 else '')
+    if v.get('hash', None) == '':
+        res = [r[:3] + ('',) for r in res]
     if res[0] != res[1] or res[0] != want:
         log('GATE FAILED: seed %s af=%s: batch=%s replays=%s' % (seed, af, want, res))
         return None, 'nondet'
@@ -502,6 +553,10 @@ def check(prop, tier):
             'other_property_oracle_hits_ignored': summ['foreign'],
             'real_components': ENGINES[engine]['real'], 'stubbed_components': ENGINES[engine]['stub'],
         }
+        if 'py_checked' in summ:
+            cov['engines'][engine]['runs_checked_by_python_bigint_oracle'] = summ['py_checked']
+        if summ.get('c14_skipped'):
+            cov['engines'][engine]['base_plans_skipped_other_property_violated'] = summ['c14_skipped']
         for k, v in summ['cnt'].items():
             (cov['faults_fired'] if k.startswith('fault_') else cov['probes'])['%s.%s' % (engine, k)] = v
         if summ['internal']:
